@@ -11,7 +11,10 @@ Record objobs := mkObjObs {
   oo_gets : list value;         (* Get(name) of the wrapped struct, per attribute *)
   oo_inithash : value;          (* InitHash() of the wrapped struct *)
   oo_newh : res gval;           (* px.New(type, InitHash) converted back into the Go type *)
-  oo_newp : res gval            (* px.New(type, positional attribute values...) converted back *)
+  oo_newp : res gval;           (* px.New(type, positional attribute values...) converted back *)
+  oo_required : nat;            (* AttributesInfo().RequiredCount() *)
+  oo_trimk : nat;               (* number of positional values left when the trailing defaults (Attribute.Default) are cut *)
+  oo_newt : option (res gval)   (* px.New(type, the first oo_trimk positional values...) converted back; None: nothing was cut *)
 }.
 
 Inductive obsv :=
@@ -21,9 +24,12 @@ Inductive obsv :=
         (accepted : bool)       (* px.IsInstance(derived type, wrapped) *)
         (back : option (res gval))   (* Reflector.Reflect2(wrapped, the Go type) *)
         (deep : bool)           (* reflect.DeepEqual(original, back) *)
+        (used : option (res gval))   (* Reflector.ReflectTo(wrapped, dest): dest went through the history of the case *)
         (obj : option objobs).
 
-Record rcase := mkCase { c_ty : gty; c_val : gval; c_obs : obsv }.
+(* c_hist: earlier values of the same Go type; the destination of the second conversion holds the first by plain
+   assignment, then each of the others by ReflectTo of its wrapped value *)
+Record rcase := mkCase { c_ty : gty; c_val : gval; c_hist : list gval; c_obs : obsv }.
 
 Definition ikind_eq_dec_b := ikind_eqb.
 
@@ -82,9 +88,10 @@ Definition res_eqb {A} (eqb : A -> A -> bool) (a b : res A) : bool :=
 Definition ffmt_of (tbl : list (Z * str)) (b : Z) : str :=
   match find (fun p => fst p =? b) tbl with Some p => snd p | None => [] end.
 
-(* the struct <-> object clause: attribute names in positional order, Get per attribute, and the instance
-   constructed from those values (one argument per attribute) converted back into the Go type of the case.
-   A single Hash argument goes to the named-argument creator, which the model does not describe: not compared. *)
+(* the struct <-> object clause: attribute names in positional order, Get per attribute, the init hash, and the
+   instances constructed from the init hash (named-argument creator), from the attribute values (one argument per
+   attribute) and from those values without the trailing defaults, each converted back into the Go type of the case.
+   A positional argument list that is a single Hash is by the dispatch order an init hash: not compared. *)
 Definition obj_check (tbl : list (Z * str)) (t : gty) (v : gval) (o : objobs) : bool :=
   match (match t, v with
          | GStruct n fs, GVStruct vs => Some (false, n, fs, vs)
@@ -94,22 +101,41 @@ Definition obj_check (tbl : list (Z * str)) (t : gty) (v : gval) (o : objobs) : 
   | Some (a, n, fs, vs) =>
       let gets := obj_gets (ffmt_of tbl) a fs vs in
       str_eqb_list (oo_attrs o) (obj_attr_names fs) &&
+      let ih := obj_init_hash (ffmt_of tbl) a fs vs in
+      let cut := cut_defaults 0 (required_count fs) (attr_order fs) gets in
       list_eqb value_eqb (oo_gets o) gets &&
+      value_eqb (oo_inithash o) (VHash ih) &&
+      res_eqb gval_eqb (oo_newh o) (rbind (obj_new_hash n fs ih) (reflect_to t)) &&
+      Nat.eqb (oo_required o) (required_count fs) &&
+      Nat.eqb (oo_trimk o) (length cut) &&
       match gets with
       | [VHash _] => true
       | _ => res_eqb gval_eqb (oo_newp o) (rbind (obj_new n fs gets) (reflect_to t))
+      end &&
+      match oo_newt o, cut with
+      | None, [VHash _] => true
+      | None, _ => Nat.eqb (length cut) (length gets)
+      | Some _, [VHash _] => false
+      | Some r, _ => res_eqb gval_eqb r (rbind (obj_new n fs cut) (reflect_to t))
       end
   | None => false
+  end.
+
+(* the destination of the second conversion before the value of the case is converted into it *)
+Definition used_dest (tbl : list (Z * str)) (t : gty) (hist : list gval) : gval :=
+  match hist with
+  | [] => zero_of t
+  | h :: hs => reflect_hist t h (map (wrap (ffmt_of tbl) t) hs)
   end.
 
 Definition c18_check (tbl : list (Z * str)) (c : rcase) : bool :=
   let t := c_ty c in let v := c_val c in
   let w := wrap (ffmt_of tbl) t v in
   let back := reflect_to t w in
-  has_type v t &&
+  has_type v t && forallb (fun h => has_type h t) (c_hist c) &&
   match c_obs c with
   | ORegFail _ => false
-  | OSeen pt ow acc oback deep obj =>
+  | OSeen pt ow acc oback deep used obj =>
       res_eqb ty_eqb pt (Ok (ptype_of t)) &&
       res_eqb value_eqb ow (Ok w) &&
       Bool.eqb acc (inst (ptype_of t) w) &&
@@ -118,6 +144,10 @@ Definition c18_check (tbl : list (Z * str)) (c : rcase) : bool :=
       | None => false
       end &&
       Bool.eqb deep (match back with Ok b => gval_eqb v b | _ => false end) &&
+      match used with
+      | Some u => res_eqb gval_eqb u (reflect_into t (used_dest tbl t (c_hist c)) w)
+      | None => match c_hist c with [] => true | _ => false end
+      end &&
       match obj with Some o => obj_check tbl t v o | None => true end
   end.
 
